@@ -161,7 +161,9 @@ def theorems_of(module):
         if m and ns and ns[-1] == m.group(1):
             ns.pop()
             continue
-        m = re.match(r"\s*(?:private\s+|protected\s+)?theorem\s+([^\s:({\[]+)", line)
+        if re.match(r"\s*private\s+theorem\s", line):
+            continue  # private helpers cannot be named from outside; they are covered through their users
+        m = re.match(r"\s*(?:protected\s+)?theorem\s+([^\s:({\[]+)", line)
         if m:
             names.append(".".join(ns + [m.group(1)]))
     return names
